@@ -174,6 +174,20 @@ pub fn upgrade_and_migrate(env: &Env, contract: &Address) -> Result<(), String> 
     Ok(())
 }
 
+/// Opaque application data of `len` bytes whose *content* varies with `seed`: pseudo-random, all zero, all 0xff, a
+/// zero word prefix (the shape of ABI-encoded small integers and offsets), or a 4-byte zero "version" prefix.
+pub fn shaped_bytes(seed: u64, len: usize) -> std::vec::Vec<u8> {
+    let mut b = seeded_bytes(seed, len);
+    match seed % 6 {
+        1 => b.iter_mut().for_each(|x| *x = 0),
+        2 => b.iter_mut().for_each(|x| *x = 0xff),
+        3 => b.iter_mut().take(32).for_each(|x| *x = 0),
+        4 => b.iter_mut().take(4).for_each(|x| *x = 0),
+        _ => {}
+    }
+    b
+}
+
 /// account-kind (G...) addresses cannot be given a mock account contract by `mock_auths`
 pub fn is_account_kind(a: &Address) -> bool {
     matches!(ScAddress::try_from(a).unwrap(), ScAddress::Account(_))
